@@ -46,6 +46,10 @@ CLAIMED = {
     text="proof: Coq theorems (Props/C15.v) over a model of the three generators and the dispatch, generic in a totally ordered number type with monotone addition: a regular train is exactly the multiples k*isi <= T (none missing, nothing else); a Poisson train, for every sequence of draws, has gaps >= min_isi, is strictly increasing and lies in (0,T]; a list stimulus is the sorted permutation of the listed times <= T for any length; each renamed target gets the in-order concatenation of the trains of all stimuli targeting it. Tie: the same Gallina functions instantiated with PrimFloat are compared bit-exactly (in Coq) with spike_times_from_json on generated stimuli sets; property text probed directly.",
     note="Trusted: Coq kernel/vm_compute, PrimFloat only in the executable instance; correspondence harness (draw replay, hex-float printing); np.loadtxt/np.sort/set order/random/math.log modelled not verified; theorems over exact ordered arithmetic.",
     technique="Coq proof generic in the number type + bit-exact PrimFloat correspondence", ref="5/C15"),
+ "C13": dict(
+    text="proof (partial): Coq theorems (Props/C13.v) over a model of integrate_ode with the numeric stepper as an oracle whose answers are data: for every event list, answer sequence and bound setting, a run that completes has a strictly increasing time log from 0; in precise mode it ends exactly at the requested duration and every spike before the end is applied exactly once, in order, at a log time equal to its own time (later ones never); in aliased mode it ends at a grid time not before the duration and every spike up to it is applied exactly once at the first grid boundary not before it; a variable beyond its upper/lower bound after a step equals its initial value; the analytic values the numeric part sees are the exact solution (via C12) for any pattern of cache toggles. Tie: real MixedIntegrator objects driven through a scripted stand-in for pygsl (exact arithmetic), t_log/y_log/upper_bound_crossed equal to the model fed the recorded stepper answers (in Coq); probes of time, bounds and spike bookkeeping.",
+    note="Partial: GSL is absent; 'follows the equations within the requested accuracy' is not proved and only exercised through the stand-in. Trusted: Coq kernel/vm_compute; harness; cython autowrap evaluation; stepper answers are checked for progress by the model.",
+    technique="Coq proof (loop invariants over an oracle stepper) + exact trajectory-log correspondence", ref="5/C13"),
  "C14": dict(
     text="proof + translator: _draw_decision is re-translated from /repo into Gallina on every run and proved (Props/C14.v) to be the documented table for every ordered carrier, all ratio settings and all non-tie inputs; the generator sets seeded before / drawn from during spike generation are re-extracted and proved to make each candidate's spike train a function of the seed alone; name suffix lemma. Grid of all 27 below/at/above patterns decided in Coq over Qc; benchmark fairness, reproducibility and the name suffix probed through a pygsl stand-in.",
     note="Trusted: Coq kernel/vm_compute; translator (fail-closed ast walker); hypothesis that spike generation reads only the generators found by the translator; GSL replaced by a scripted stand-in (nothing claimed about GSL).",
